@@ -326,6 +326,12 @@ def _run_case(args):
         return fn(case)
     except CaseTimeout:
         return {"id": case.get("id", -1), "status": "timeout", "case": case}
+    except Exception:
+        # the DRIVER itself failed (exceptions of the code under test are caught and recorded by the drivers): reported
+        # as a machinery failure with the case that caused it, never as a verdict and never as a bare traceback
+        import traceback
+        return {"_driver_crash": traceback.format_exc()[-1500:], "id": case.get("id", -1),
+                "case": {k: v for k, v in case.items() if k != "clauses"}}
     finally:
         signal.alarm(0)
         if _COV is not None:
@@ -344,6 +350,9 @@ def run_cases(fn, cases, timeout=120, procs=None, chunksize=4, isolate=False):
     # process-lifetime state of the code (C09) cannot leak from one case into another
     with ctx.Pool(procs, initializer=_worker_init, maxtasksperchild=1 if isolate else 200) as pool:
         res = pool.map(_run_case, [(fn, c, timeout) for c in cases], chunksize=1 if isolate else chunksize)
+    for r in res:
+        if isinstance(r, dict) and "_driver_crash" in r:
+            raise Machinery("the harness driver crashed on case %s\n%s" % (json.dumps(r["case"], default=str)[:600], r["_driver_crash"]))
     return res
 
 
